@@ -71,4 +71,32 @@ theorem oklab_white : dist3 ((M3.ofK (α := Rat) Gen.Mat.oklabM1).mulVec (wpR "D
     (1 : Rat) / 100000 < dist3 ((M3.ofK (α := Rat) Gen.Mat.oklabM1).mulVec (wpR "D65")) ⟨1, 1, 1⟩ ∧
     dist3 ((M3.ofK (α := Rat) Gen.Mat.oklabM2).mulVec ⟨1, 1, 1⟩) ⟨1, 0, 0⟩ ≤ 4 / 100000000 := by decide +kernel
 
+/-! ### … and back: the Oklab gray axis returns to equal RGB components
+
+An Oklab neutral `(L, 0, 0)` goes to `lms' = M2⁻¹·(L,0,0) = L·(first column of M2⁻¹)`, cubed, then through `M1⁻¹` to XYZ and through the
+standard's `xyz_to_rgb_matrix`.  Everything but the cube is linear and the cube acts on (numerically) equal components, so the whole gray
+axis is settled by the image of `(1,1,1)`. -/
+
+def m1 : M3 Rat := M3.ofK Gen.Mat.oklabM1
+def m1Inv : M3 Rat := M3.ofK Gen.Mat.oklabM1Inv
+def m2Inv : M3 Rat := M3.ofK Gen.Mat.oklabM2Inv
+def spread3 (v : V3 Rat) : Rat := max v.c0 (max v.c1 v.c2) - min v.c0 (min v.c1 v.c2)
+
+/-- `M2⁻¹` sends the Oklab gray axis to equal cone responses (first column within 6e-8 of (1,1,1)); `M1`/`M1⁻¹` are mutual inverses within
+    1e-9, both ways — so gray → Oklab → XYZ is the identity to that accuracy whatever the RGB standard; and `M1⁻¹·(1,1,1)` is the published D65
+    (within 1.5e-4 of the crate's 5-digit D65, the same mismatch as `oklab_white`) -/
+theorem oklab_back_matrices :
+    dist3 (m2Inv.mulVec ⟨1, 0, 0⟩) ⟨1, 1, 1⟩ ≤ 6 / 100000000 ∧
+    distM (M3.mul m1 m1Inv) idM ≤ 1 / 1000000000 ∧ distM (M3.mul m1Inv m1) idM ≤ 1 / 1000000000 ∧
+    dist3 (m1Inv.mulVec ⟨1, 1, 1⟩) (wpR "D65") ≤ 25 / 100000 := by decide +kernel
+
+/-- **an exact Oklab neutral comes back with equal linear RGB components** in every D65 RGB space with hard-coded matrices: the spread of
+    `xyz_to_rgb·M1⁻¹·(1,1,1)` is at most 4e-4 (it is the white point digits again: more than 1e-4 for the non-sRGB spaces, whose matrices
+    belong to the 5-digit D65), and every component is within 4e-4 of 1 -/
+theorem oklab_neutral_back :
+    (Gen.Mat.rgbSpaces.filter (·.2.1 == "D65")).all (fun sp =>
+      let v := (spaceM sp).2.mulVec (m1Inv.mulVec ⟨1, 1, 1⟩)
+      decide (spread3 v ≤ 4 / 10000) && decide (dist3 v ⟨1, 1, 1⟩ ≤ 4 / 10000)) = true ∧
+    (Gen.Mat.rgbSpaces.filter (·.2.1 == "D65")).length = 4 := by decide +kernel
+
 end C14
